@@ -472,6 +472,12 @@ func err1Obligations(w *World) []Ob {
 				continue
 			}
 			if ci, ok := s.instr.(ssa.CallInstruction); ok {
+				switch n := calleeFullName(ci.Common()); {
+				case strings.HasPrefix(n, "(*strings.Builder).Write"), strings.HasPrefix(n, "(*bytes.Buffer).Write"):
+					ob.Status, ob.Detail, ob.Nontrivial = OK, "in-memory writer: documented to always return a nil error", false
+					l.add(ob)
+					continue
+				}
 				if isStderrWrite(ci.Common()) && classOfCall(p, ci) == EffWriteGiven {
 					ob.Status, ob.Detail, ob.Nontrivial = OK, "diagnostic written to os.Stderr: nothing further can be reported", false
 					l.add(ob)
